@@ -734,7 +734,8 @@ func oracleConc(seed int64, id int) CaseResult {
 		}
 	}
 	sameSelect := (id%6 == 5 || id%6 == 3) && !dist
-	if sameSelect && id%6 == 3 {
+	crowd := sameSelect && id%6 == 3
+	if crowd {
 		// many more queries than cores, all under way at once: they must not starve each other
 		runtime.GOMAXPROCS(2)
 		jobs = make([]job, 6*runtime.NumCPU()+8)
@@ -748,6 +749,16 @@ func oracleConc(seed int64, id int) CaseResult {
 			jobs[i].q, jobs[i].w = text, faultWindow
 		}
 		st.SlowSelectName, st.SlowSelectDelay, st.SlowSelectCtx = "foo", 25*time.Millisecond, true
+		if crowd {
+			// all of them aggregations, none cancelled, and a select slow enough for every query to be
+			// inside it before the first one leaves: each then holds whatever its outer operators hold
+			// while its inner operators start
+			text := pick(r, []string{"sum by (a) (foo)", "max(foo) by (b)", "sum(foo)", "count(rate(foo[1m]))", "sum(foo) / count(foo)"})
+			for i := range jobs {
+				jobs[i].q = text
+			}
+			st.SlowSelectDelay = 250 * time.Millisecond
+		}
 	}
 	res := CaseResult{Query: fmt.Sprintf("%d concurrent queries, first: %s", k, jobs[0].q), Window: faultWindow, NonTriv: true}
 	// "run alone": on an engine of its own, so that the shared engine's first queries are the concurrent ones
@@ -774,7 +785,7 @@ func oracleConc(seed int64, id int) CaseResult {
 			// Cancel() racing with Exec, for native queries only: promql.query.Cancel of the
 			// embedded Prometheus engine (fallback path) races with its own Exec (library defect).
 			if sameSelect {
-				if i%2 == 0 {
+				if i%2 == 0 && !crowd {
 					go func() { time.Sleep(time.Duration(2+i%7) * time.Millisecond); q.Cancel() }()
 				}
 			} else if i%5 == 4 && strings.Contains(fmt.Sprintf("%T", q), "compatibilityQuery") {
@@ -791,7 +802,7 @@ func oracleConc(seed int64, id int) CaseResult {
 	}
 	wg.Wait()
 	for i := range jobs {
-		if (i%5 == 4 || (sameSelect && i%2 == 0)) && got[i].Kind == "error" && got[i].Err == "ctx-canceled" {
+		if (i%5 == 4 || (sameSelect && i%2 == 0 && !crowd)) && got[i].Kind == "error" && got[i].Err == "ctx-canceled" {
 			continue // cancelled on purpose
 		}
 		if d := diffSelf(got[i], solo[i]); d != "" {
